@@ -1,0 +1,96 @@
+//go:build verif
+
+package btree
+
+import "fmt"
+
+// VerifCheck validates the structural invariants of the tree (verification
+// hook): every non-root node holds between degree-1 and 2*degree-1 items, the
+// root holds at most 2*degree-1 (and at least one when the tree is not empty),
+// every node has either no children or one more child than items, all leaves
+// are at the same depth, an in-order walk is strictly increasing, and the
+// recorded length equals the number of items.
+func (t *BTree) VerifCheck() error {
+	if t.root == nil {
+		if t.length != 0 {
+			return fmt.Errorf("nil root but length %d", t.length)
+		}
+		return nil
+	}
+	var (
+		count     int
+		leafDepth = -1
+		prev      Item
+		walk      func(n *node, depth int, isRoot bool) error
+	)
+	walk = func(n *node, depth int, isRoot bool) error {
+		if n == nil {
+			return fmt.Errorf("nil node at depth %d", depth)
+		}
+		if len(n.items) > t.maxItems() {
+			return fmt.Errorf("node at depth %d has %d items > max %d", depth, len(n.items), t.maxItems())
+		}
+		if !isRoot && len(n.items) < t.minItems() {
+			return fmt.Errorf("non-root node at depth %d has %d items < min %d", depth, len(n.items), t.minItems())
+		}
+		if isRoot && len(n.items) == 0 {
+			return fmt.Errorf("empty root node kept (length %d)", t.length)
+		}
+		if len(n.children) != 0 && len(n.children) != len(n.items)+1 {
+			return fmt.Errorf("node at depth %d has %d items and %d children", depth, len(n.items), len(n.children))
+		}
+		if len(n.children) == 0 {
+			if leafDepth == -1 {
+				leafDepth = depth
+			} else if leafDepth != depth {
+				return fmt.Errorf("leaves at depth %d and %d", leafDepth, depth)
+			}
+		}
+		for i, it := range n.items {
+			if len(n.children) > 0 {
+				if err := walk(n.children[i], depth+1, false); err != nil {
+					return err
+				}
+			}
+			if it == nil {
+				return fmt.Errorf("nil item at depth %d", depth)
+			}
+			if prev != nil && !prev.Less(it) {
+				return fmt.Errorf("in-order walk not strictly increasing: %v then %v", prev, it)
+			}
+			prev = it
+			count++
+		}
+		if len(n.children) > 0 {
+			return walk(n.children[len(n.items)], depth+1, false)
+		}
+		return nil
+	}
+	if err := walk(t.root, 0, true); err != nil {
+		return err
+	}
+	if count != t.length {
+		return fmt.Errorf("length %d but %d items in the tree", t.length, count)
+	}
+	return nil
+}
+
+// VerifHeight returns the number of levels of the tree (0 when empty) and the
+// number of nodes (verification hook, used to classify generated cases).
+func (t *BTree) VerifHeight() (height int, nodes int) {
+	var walk func(n *node, depth int)
+	walk = func(n *node, depth int) {
+		if n == nil {
+			return
+		}
+		nodes++
+		if depth+1 > height {
+			height = depth + 1
+		}
+		for _, c := range n.children {
+			walk(c, depth+1)
+		}
+	}
+	walk(t.root, 0)
+	return height, nodes
+}
